@@ -297,9 +297,9 @@ theorem foldl_gStep_nodup : ∀ (recs : List Rec) (st : GState), (st.spans.map (
 
 /-! ### the trace listing -/
 
-theorem searchRow_trace {recs : List Rec} {t : String} {row : TraceRow} (h : searchRow recs t = .ok (some row)) :
+theorem searchRowOld_trace {recs : List Rec} {t : String} {row : TraceRow} (h : searchRowOld recs t = .ok (some row)) :
     row.trace = t := by
-  unfold searchRow at h
+  unfold searchRowOld at h
   simp only [] at h
   split at h
   · cases h
@@ -312,70 +312,113 @@ theorem searchRow_trace {recs : List Rec} {t : String} {row : TraceRow} (h : sea
         · cases h
     · cases h
 
-theorem searchRows_sound {recs : List Rec} : ∀ {ids : List String} {rows : List TraceRow},
-    searchRows recs ids = .ok rows →
-      rows.map (·.trace) <+ ids ∧ ∀ row ∈ rows, searchRow recs row.trace = .ok (some row) := by
-  intro ids
-  induction ids with
-  | nil =>
-    intro rows h
-    simp only [searchRows, Except.ok.injEq] at h
+theorem searchRow_trace {recs : List Rec} {t : String} {row : TraceRow} (h : searchRow recs t = some row) :
+    row.trace = t := by
+  unfold searchRow at h
+  split at h
+  · rename_i r hr
     subst h
-    simp
-  | cons t ts ih =>
-    intro rows h
-    simp only [searchRows] at h
-    split at h
-    · cases h
-    · obtain ⟨h1, h2⟩ := ih h
-      exact ⟨Sublist.cons _ h1, h2⟩
-    · rename_i row hrow
-      split at h
-      · cases h
-      · rename_i rows' hrows
-        simp only [Except.ok.injEq] at h
-        subst h
-        obtain ⟨h1, h2⟩ := ih hrows
-        have ht := searchRow_trace hrow
-        refine ⟨?_, ?_⟩
-        · rw [map_cons, ht]; exact Sublist.cons_cons _ h1
-        · intro r hr
-          rcases mem_cons.1 hr with rfl | hr
-          · rw [ht]; exact hrow
-          · exact h2 r hr
+    exact searchRowOld_trace hr
+  · cases h
 
-theorem searchRows_complete {recs : List Rec} : ∀ {ids : List String} {rows : List TraceRow},
-    searchRows recs ids = .ok rows → ∀ t ∈ ids, ∀ row, searchRow recs t = .ok (some row) → row ∈ rows := by
+theorem filterMap_searchRow_sound (recs : List Rec) : ∀ (ids : List String),
+    ((ids.filterMap (searchRow recs)).map (·.trace)) <+ ids ∧
+    ∀ row ∈ ids.filterMap (searchRow recs), searchRow recs row.trace = some row := by
   intro ids
   induction ids with
-  | nil => intro rows _ t ht; cases ht
-  | cons a ts ih =>
-    intro rows h t ht row hrow
-    simp only [searchRows] at h
-    split at h
-    · cases h
-    · rename_i hnone
-      rcases mem_cons.1 ht with rfl | ht
-      · rw [hnone] at hrow; cases hrow
-      · exact ih h t ht row hrow
-    · rename_i row' hrow'
-      split at h
-      · cases h
-      · rename_i rows' hrows
-        simp only [Except.ok.injEq] at h
-        subst h
-        rcases mem_cons.1 ht with rfl | ht
-        · rw [hrow'] at hrow
-          simp only [Except.ok.injEq, Option.some.injEq] at hrow
-          subst hrow
-          exact mem_cons_self
-        · exact mem_cons_of_mem _ (ih hrows t ht row hrow)
+  | nil => simp
+  | cons t ts ih =>
+    obtain ⟨h1, h2⟩ := ih
+    cases hrow : searchRow recs t with
+    | none =>
+      rw [filterMap_cons_none hrow]
+      exact ⟨Sublist.cons _ h1, h2⟩
+    | some row =>
+      rw [filterMap_cons_some hrow]
+      have ht := searchRow_trace hrow
+      refine ⟨?_, ?_⟩
+      · rw [map_cons, ht]; exact Sublist.cons_cons _ h1
+      · intro r hr
+        rcases mem_cons.1 hr with rfl | hr
+        · rw [ht]; exact hrow
+        · exact h2 r hr
 
 theorem traceIds_nodup (recs : List Rec) : (traceIds recs).Nodup := uniq_nodup _
 
 theorem mem_traceIds {recs : List Rec} {t : String} : t ∈ traceIds recs ↔ ∃ r ∈ recs, r.trace = t := by
   unfold traceIds sortedDistinct
   rw [mem_uniq, mem_isort, mem_map]
+
+/-- consecutive pieces of `n` elements, `k` of them, are the whole list when `n * k` reaches its length -/
+theorem chunks_flatten {α : Type} (n : Nat) : ∀ (k : Nat) (l : List α), l.length ≤ n * k →
+    (List.range k).flatMap (fun i => (l.drop (i * n)).take n) = l := by
+  intro k
+  induction k with
+  | zero =>
+    intro l h
+    have : l = [] := by
+      cases l with
+      | nil => rfl
+      | cons a t => simp at h
+    subst this
+    simp
+  | succ k ih =>
+    intro l h
+    rw [range_succ_eq_map, flatMap_cons, flatMap_map]
+    have e : (fun i => (l.drop ((i + 1) * n)).take n) = (fun i => ((l.drop n).drop (i * n)).take n) := by
+      funext i
+      rw [drop_drop]
+      congr 2
+      rw [Nat.add_mul]; omega
+    simp only [Nat.zero_mul, drop_zero]
+    rw [e, ih (l.drop n) (by rw [length_drop]; rw [Nat.mul_succ] at h; omega)]
+    exact take_append_drop n l
+
+/-! ### setKV / getKV -/
+
+theorem getKV_setKV_self {β : Type} (m : List (String × β)) (k : String) (v : β) : getKV (setKV m k v) k = some v := by
+  induction m with
+  | nil => simp [setKV, getKV]
+  | cons kv m ih =>
+    obtain ⟨a, b⟩ := kv
+    simp only [setKV]
+    split
+    · simp [getKV]
+    · rename_i h
+      simp only [getKV, h]
+      exact ih
+
+/-- writing the fields of `d` (distinct keys) over `m`: a key of `d` reads the value `d` gives it -/
+theorem getKV_setAll (d : List (String × JVal)) : ∀ (m : List (String × JVal)) (k : String),
+    (d.map (·.1)).Nodup → k ∈ d.map (·.1) → getKV (setAll m d) k = getKV d k := by
+  induction d with
+  | nil => intro m k _ hk; cases hk
+  | cons kv d ih =>
+    intro m k hnd hk
+    obtain ⟨a, b⟩ := kv
+    simp only [map_cons, nodup_cons] at hnd
+    simp only [setAll, foldl_cons] at ih ⊢
+    by_cases hak : a = k
+    · subst hak
+      -- the later fields do not touch key a
+      have keep : ∀ (d' : List (String × JVal)) (m' : List (String × JVal)), a ∉ d'.map (·.1) →
+          getKV (d'.foldl (fun m kv => setKV m kv.1 kv.2) m') a = getKV m' a := by
+        intro d'
+        induction d' with
+        | nil => intro m' _; rfl
+        | cons kv' d' ih' =>
+          intro m' hna
+          simp only [map_cons, mem_cons, not_or] at hna
+          rw [foldl_cons, ih' _ hna.2]
+          exact getKV_setKV_ne m' a kv'.1 kv'.2 (fun h => hna.1 h.symm)
+      rw [keep d _ hnd.1, getKV_setKV_self]
+      simp [getKV]
+    · have hk' : k ∈ d.map (·.1) := by
+        rcases mem_cons.1 hk with h | h
+        · exact absurd h.symm hak
+        · exact h
+      rw [ih (setKV m a b) k hnd.2 hk']
+      simp [getKV, hak]
 
 /-! ### the rank encoding of id strings -/
 
